@@ -54,6 +54,16 @@ def gen_file(rng, st):
     else:
         st["block:garbage"] += 1
         bodies = ["".join(rng.choice(RAWCH) for _ in range(rng.randint(0, 10))) for _ in range(rng.randint(0, 4))]
+    # a configuration line whose content starts with the marker text again (`//@//@ …`): exactly ONE marker is
+    # stripped per line, so the rest belongs to the TOML text (a value inside a multi-line string, or an error)
+    if m:
+        nb = []
+        for b in bodies:
+            if rng.random() < 0.1:
+                st["body-starts-with-marker"] += 1
+                b = m * rng.choice([1, 1, 2]) + b
+            nb.append(b)
+        bodies = nb
     head = "".join(m + b + gen_eol(rng, st) for b in bodies)
     st["config-lines:%d" % min(len(bodies), 6)] += 1
     r = rng.random()
